@@ -564,7 +564,8 @@ pub fn ref_prove<P: Grp, R: RngCore>(
     let mut a_l: Vec<Scalar> = vec![];
     let mut a_r: Vec<Scalar> = vec![];
     for j in 0..m {
-        let mut off = w.values[j].wrapping_sub(st.promises[j].unwrap_or(0));
+        // (a promise vector shorter than the commitment vector - a hand-edited statement - counts as absent promises here)
+        let mut off = w.values[j].wrapping_sub(st.promises.get(j).copied().flatten().unwrap_or(0));
         if j == cheat_slot % m {
             match cheat {
                 Cheat::OtherValue => off = off.wrapping_add(1),
